@@ -1,4 +1,5 @@
 """C16 — name, path, signature and UTF-8 validators accept exactly the specified grammars."""
+import os, sys
 import itertools, random
 import vlib
 
@@ -241,7 +242,53 @@ def run(ctx):
                 rep.known(k, vlib.hexs(b))
             else:
                 rep.violation("%s %r: code and model say %s, grammar says %s" % (g, b, imp_v, spec_v), {"cmd": g, "input": vlib.hexs(b), "impl": i, "model": m})
+    # the same grammar as seen by MESSAGE PARSING: a variant whose embedded signature is not one single complete type must make the
+    # message invalid whatever data follows (the validator reaches signatures through validate_body_helper, not only through the
+    # public dbus_signature_validate* entry points)
+    import struct as _st
+    sys.path.insert(0, os.path.join(vlib.VERIF, "harness", "py"))
+    from rawbus import Msg
+    FIXSZ = {"y": 1, "b": 4, "n": 2, "q": 2, "i": 4, "u": 4, "x": 8, "t": 8, "d": 8, "h": 4}
+    vlines, vsrc = [], []
+    seen_v = set()
+    for (g, b), m in zip(cases, model):
+        if g != "sig" or not b or len(b) > 255 or b in seen_v or m.startswith("?"):
+            continue
+        mf = m.split(" ")
+        if mf[2] == "1":        # a single complete type: acceptance depends on the data, not judged here
+            continue
+        seen_v.add(b)
+        if len(seen_v) > (2500 if tier == "quick" else 60000):
+            break
+        head = bytes([len(b)]) + b + b"\0"
+        datas = [b"", b"\0" * 8]
+        c0 = chr(b[0])
+        if c0 in FIXSZ:
+            al = FIXSZ[c0]
+            datas.append(b"\0" * ((-len(head)) % al) + b"\0" * al)            # exactly the first value
+        elif c0 in "sog":
+            datas.append(b"\0" * ((-len(head)) % 4) + (b"\x01\0\0\0/\0" if c0 == "o" else b"\0\0\0\0\0") if c0 != "g" else b"\0\0")
+        elif c0 == "a":
+            datas.append(b"\0" * ((-len(head)) % 4) + b"\0" * 4)
+        for dta in datas:
+            base = Msg(4, 0, 1, {1: "/a", 2: "a.b", 3: "S", 8: "v"}, "", ())
+            hb = bytearray(base.encode())
+            raw = head + dta
+            _st.pack_into("<I", hb, 4, len(raw))
+            vlines.append("demarshal " + vlib.hexs(bytes(hb) + raw)); vsrc.append(b)
+    vres, vcr = vlib.run_lines(info["wire_h"], vlines)
+    for line, err in vcr:
+        rep.violation("implementation crashed while parsing a message with a malformed variant signature: %s: %s" % (line[:300], err[-600:]), {"input": line, "stderr": err})
+    n_variant_route = 0
+    for l, b, r in zip(vlines, vsrc, vres):
+        if r == "!CRASH":
+            continue
+        n_variant_route += 1
+        if " msg " in r:
+            rep.violation("message parsing accepts a variant whose signature %r is not a single complete type (dbus_signature_validate_single and the grammar reject it)" % b,
+                          {"cmd": "demarshal", "input": l.split(" ", 1)[1], "signature": vlib.hexs(b), "impl": r})
     rep.coverage.update({
+        "variant_route_cases": n_variant_route,
         "evaluations": len(cases), "distinct_nontrivial": len(nontrivial),
         "rule": "exhaustive strings up to length %d over a 10-symbol class alphabet per name grammar; every byte value in 14 positional templates; "
                 "all 2-byte strings and lead x continuation-class combinations (<=4 bytes) for UTF-8 plus scalar boundaries in 1..6-byte forms; "
